@@ -49,6 +49,8 @@ type Session struct {
 	// that is uploaded must still be in order and faithful, and the server must survive)
 	Fault string `json:"fault,omitempty"`
 	Snr   int    `json:"snr,omitempty"`
+	// StartS: availabilityStartTime of the stream (start_ in the URL); testNowMS lies after it
+	StartS int64 `json:"start_s,omitempty"`
 	// Chunked: low-latency session (ato = 3/4 segment, chunkdur = 1/4 segment): every segment is uploaded with chunked
 	// transfer encoding while it is produced in real time (so only short segments are drawn)
 	Chunked bool `json:"chunked,omitempty"`
@@ -127,6 +129,10 @@ func genCase(t *rapid.T) (Case, *env.Env) {
 		s.EarlyDelete = rapid.IntRange(0, 5).Draw(t, "early") == 0
 		s.Fault = rapid.SampledFrom([]string{"", "", "", "media-errors", "init-error", "statuscode"}).Draw(t, "fault")
 		s.Snr = rapid.SampledFrom([]int{0, 0, 1, 7}).Draw(t, "snr")
+		s.StartS = rapid.SampledFrom([]int64{0, 0, 0, 600, 1_600_000_000}).Draw(t, "start")
+		if s.StartS != 0 {
+			s.TestNowMS = s.StartS*1000 + 10_000 + int64(rapid.IntRange(0, int(3*segMS)).Draw(t, "off2"))
+		}
 		if s.Fault == "statuscode" {
 			s.Streams, s.Duration = false, 0 // uploads are matched by the number/time in their path
 		}
@@ -292,6 +298,9 @@ func checkCase(c Case, e *env.Env) (*hx.Violation, info) {
 		cfg.Type = s.Type
 		if s.Snr != 0 {
 			cfg.Snr, cfg.HasSnr = int64(s.Snr), true
+		}
+		if s.StartS != 0 {
+			cfg.StartS, cfg.HasStart = s.StartS, true
 		}
 		if segMS < 1000 {
 			cfg.Extra = []string{"mup_1"}
@@ -605,7 +614,7 @@ func TestC16(t *testing.T) {
 		}
 		return
 	}
-	run.Essential(">=3-steps-with->=2-reps", "duration-finished", "deleted", "deleted-during-init", "concurrent-sessions", "init-refused", "media-errors", "snr!=0")
+	run.Essential(">=3-steps-with->=2-reps", "duration-finished", "deleted", "deleted-during-init", "concurrent-sessions", "init-refused", "media-errors", "snr!=0", "start!=0")
 	run.Rapid(t, 1, 40, 250, func(rt *rapid.T) {
 		c, e := genCase(rt)
 		v, inf := checkCase(c, e)
@@ -635,6 +644,12 @@ func TestC16(t *testing.T) {
 		for _, s := range c.Sessions {
 			if s.Snr != 0 {
 				cls = append(cls, "snr!=0")
+				break
+			}
+		}
+		for _, s := range c.Sessions {
+			if s.StartS != 0 {
+				cls = append(cls, "start!=0")
 				break
 			}
 		}
